@@ -49,8 +49,13 @@ def install_tee():
 
 
 def generate(rng, i, tier):
-    rows = gen.gen_rows(rng, nasty=rng.random() < 0.5)
+    rows = gen.gen_rows(rng, nasty=rng.random() < 0.5, ws_lines=True)
     hdr = rows[0]
+    if rng.random() < 0.04:
+        # one cell big enough to push data.csv / unmatched.csv / vars.json beyond 64 KiB (still below csv's field size limit)
+        big = [r for r in rows[1:] if len(r) > 1]
+        if big:
+            rng.choice(big)[1] = "y" * 70001
     k = rng.randint(1, 3)
     members = []
     for j in range(k):
@@ -312,6 +317,7 @@ def execute(sc):
         out.probe("run after an abandoned generator run on the same instance", False)
         out.probe("member using a cross-path signal (fail_all/stop_all/skip_all/advance_all)", any("_all(" in c for m in sc["members"] for c in m["comps"]))
         out.probe("member that edits the line in place (append/replace)", any(c.startswith(("append(", "replace(")) for m in sc["members"] for c in m["comps"]))
+        out.probe("archived member file larger than 64 KiB", any(len(c) > 65536 for r in sc["rows"] for c in r))
         out.probe("member with run-mode: no-run", any((m.get("modes") or {}).get("run-mode") == "no-run" for m in sc["members"]))
         out.log("tree", _digest_tree(checked_dirs))
     return out.done()
